@@ -14,13 +14,13 @@ import (
 )
 
 type runRequest struct {
-	ID      int      `json:"id"`
-	Input   string   `json:"input"`
-	Outs    []string `json:"outs"`
-	Probes  []string `json:"probes"`
-	Timeout int      `json:"timeout"`
-	OutTimeout int   `json:"outTimeout"`
-	Full    bool     `json:"full,omitempty"`
+	ID         int      `json:"id"`
+	Input      string   `json:"input"`
+	Outs       []string `json:"outs"`
+	Probes     []string `json:"probes"`
+	Timeout    int      `json:"timeout"`
+	OutTimeout int      `json:"outTimeout"`
+	Full       bool     `json:"full,omitempty"`
 }
 
 type runIn struct {
